@@ -571,4 +571,4 @@ LEVEL = 'exploration'
 TECHNIQUE = 'runtime differential oracle across call histories in forked interpreters (first-print reference vs warm state) + deep input snapshots + fingerprint monitor on shared module-level documents'
 LEVEL_TEXT = ('Every corpus entry is printed first in a fresh fork of a pristine interpreter; then random and adversarial call histories (each in its own fork) must reproduce exactly those texts at every position, '
               'the object graph of every input must be unchanged by every call, and the shared module-level document constants must be unchanged by every history.')
-LEVEL_NOTE = 'Corpus and histories are samples (quick: ~270 entries incl. systematic confusable families, 60 histories of up to 300 calls, some with registration / configuration operations between prints); fork preserves ids so texts containing ids are comparable.'
+LEVEL_NOTE = 'Corpus and histories are samples (quick: ~270 entries incl. systematic confusable families, 60 histories of up to 300 calls, some with registration / configuration operations or a print that raises between prints); fork preserves ids so texts containing ids are comparable.'
